@@ -32,7 +32,7 @@ case "$ID" in
 esac
 build bin/vcheck
 if [ "$RACE" = 1 ]; then build bin/vcheck-race -race; export VERIF_RACE_BIN="$PWD/bin/vcheck-race"; fi
-export VERIF_BIN="$PWD/bin/vcheck"
+export VERIF_BIN="$PWD/bin/vcheck" VERIF_MODFLAG="$MODFLAG"
 SCRATCH="$(mktemp -d "${VERIF_SCRATCH_BASE:-/var/tmp}/verif-$ID-XXXXXX")"
 trap 'rm -rf "$SCRATCH"' EXIT
 export VERIF_SCRATCH="$SCRATCH" TMPDIR="$SCRATCH"
